@@ -131,6 +131,25 @@ def check_register(case):
         except Exception as e:
             return [("@register-unbuildable", "")]
         verdict, bad_pairs, bad_r, why = expected(dspec, coords)
+        # the verdict does not depend on how the atoms are NAMED: integer ids, and integer / string ids that print alike (1 and "1")
+        for kind, alt in (("int", list(range(len(coords)))), ("int-and-str-alike", [(i // 2 + 1) if i % 2 == 0 else str(i // 2 + 1) for i in range(len(coords))])):
+            try:
+                areg = cls(dict(zip(alt, coords)))
+            except Exception:
+                continue
+            for how in ("validate", "sequence"):
+                try:
+                    if how == "validate":
+                        dev.validate_register(areg)
+                    else:
+                        from pulser import Sequence
+
+                        Sequence(areg, dev)
+                    ok = True
+                except Exception:
+                    ok = False
+                if verdict is not None and ok != verdict:
+                    out.append((f"C12:verdict-depends-on-the-qubit-ids:{kind}:{'accepted' if ok else 'refused'}:{why}", f"{coords} named {alt} on {dspec} ({how})"[:250]))
         for how in ("validate", "sequence"):
             try:
                 if how == "validate":
